@@ -182,7 +182,9 @@ def run(tier="quick", seed=0, arg=None):
     # single catalogued pairs (shapes reported by seeded changes): two `!=`-groups of one variable in different `or` branches, one bare and one inside an `and`
     # group - the re-parse folds them in another member order than `&` built them
     for ta, tb in (('os_name != "java" and os_name != "nt" or sys_platform == "linux"', 'os_name != "posix" and os_name != "nt"'),
-                   ('os_name != "posix" and os_name != "nt"', 'os_name != "nt" and os_name != "java"')):
+                   ('os_name != "posix" and os_name != "nt"', 'os_name != "nt" and os_name != "java"'),
+                   # the witness of finding D14 (substring vs list reading of `python_version in`), so that the finding is shown on every run
+                   ('python_version in "3.10, 3.9"', 'python_version < "3.5"')):
         group_pairs += [((ta, parse_marker(ta)), (tb, parse_marker(tb))), ((tb, parse_marker(tb)), (ta, parse_marker(ta)))]
     W = [(t, m) for t, m in pool if t in set(WITNESS_TEXTS)]
     group_pairs += [(x, y) for x in W for y in W]
